@@ -89,6 +89,11 @@ class StandardQTomographyBasedWeightedProbabilityBasedSquaredError(
 
         self._extend_weight_matrix = np.block(block_matrix)
 
+    def _set_weights_by_mode(self, mode_weight: str, data: List) -> None:
+        # the weights are set here, after set_func_*_from_standard_qt: rebuild the extended matrix from them
+        super()._set_weights_by_mode(mode_weight, data)
+        self._calc_extend_weight_matrix()
+
     def set_prob_dists_q(self, prob_dists_q: List[np.ndarray]) -> None:
         """sets vectors of ``q``, by default None.
 
